@@ -51,7 +51,7 @@ def register(P):
     P.ORACLE_COMPONENT["fin_sent"] = "vsock"
     P.ORACLE_COMPONENT["nagle"] = "vsock"
     P.KNOWN_DEMOS[_json.dumps({"oracle": "stream", "what": "diverged_after_delivered_probe_was_resplit"}, sort_keys=True)] = _demo_d2(P)
-    reg(P, "C18", ["UtpVerif.Props.C18"], ["stream_content", "nagle"])
+    reg(P, "C18", ["UtpVerif.Props.C18"], ["stream_content", "nagle", "nagle_off"])
     reg(P, "C05", ["UtpVerif.Props.C05"], ["window", "slow_start", "cc_accounting"])
     reg(P, "C07", ["UtpVerif.Props.C07"], ["ack_timeliness", "ack_forcing", "window_reopen"])
     reg(P, "C17", ["UtpVerif.Props.C17"], ["stream_content", "fin_sent", "reset", "rtx_timer"])
@@ -75,7 +75,7 @@ def register(P):
     P.PROPS["C14"]["oracles"]["datagram_sizes"] = VO.ALL["datagram_sizes"]
     P.PROPS["C14"]["oracles"]["stream_content"] = VO.ALL["stream_content"]
     P.PROPS["C14"]["oracles"]["probe_discipline"] = VO.ALL["probe_discipline"]
-    for _o in ("probe_discipline", "reset", "slow_start", "eof_honest", "ack_forcing", "window_reopen", "cc_accounting", "inactivity_discipline", "completion_honest", "idle_promptness", "read_content", "rx_honesty", "rto_backoff", "karn", "acked_not_resent"):
+    for _o in ("probe_discipline", "reset", "slow_start", "eof_honest", "ack_forcing", "window_reopen", "cc_accounting", "inactivity_discipline", "completion_honest", "idle_promptness", "read_content", "rx_honesty", "rto_backoff", "karn", "acked_not_resent", "nagle_off"):
         P.ORACLE_COMPONENT[_o] = "vsock"
     P.ORACLE_COMPONENT["datagram_sizes"] = "vsock"
     P.PROPS["C04"]["components"].append("vsock")
